@@ -2,14 +2,17 @@
 # Build the Coq development from clean (full .vo build) and run the hygiene gate.
 set -e
 cd "$(dirname "$0")"
+# serialise with running checks (they regenerate files under coq/gen under the same lock)
+if [ -z "$VERIF_LOCK_HELD" ]; then export VERIF_LOCK_HELD=1; exec flock "$(pwd)/.lock" bash "$(pwd)/setup.sh" "$@"; fi
 export PYTHONPATH=/repo PYTHONHASHSEED=0 MPLBACKEND=Agg
 mkdir -p coq/gen evidence replays
 # regenerated data (C15 rule tables) must exist before the build
 if [ -f harness/gen_tables.py ]; then /venv/bin/python harness/gen_tables.py; fi
+if [ -f harness/translate.py ]; then /venv/bin/python harness/translate.py; fi
 cd coq
 { echo "-Q . CPL"; echo "-arg -w -arg -notation-overridden,-deprecated-hint-without-locality,-deprecated-instance-without-locality,-ambiguous-paths"; 
   find Model Proofs Spec Properties Corr -name '*.v' 2>/dev/null | sort | grep -Ev "${SETUP_EXCLUDE_RE:-^$}"; 
-  [ -f gen/GenTables.v ] && echo gen/GenTables.v; [ -d GenProps ] && find GenProps -name '*.v' | sort; } > _CoqProject
+  [ -f gen/GenTables.v ] && echo gen/GenTables.v; [ -f gen/GenFuns.v ] && echo gen/GenFuns.v; [ -d GenProps ] && find GenProps -name '*.v' | sort; } > _CoqProject
 coq_makefile -f _CoqProject -o Makefile >/dev/null
 if [ "$1" = "clean" ]; then make clean >/dev/null 2>&1 || true; fi
 ulimit -s unlimited 2>/dev/null || true
